@@ -554,6 +554,7 @@ func viol(class, f string, a ...any) *harness.Violation {
 }
 
 type acc struct {
+	run    uint64 // running fingerprint of the current simulated execution
 	hashes []uint64
 	evals  int
 	faults map[string]int
@@ -640,11 +641,10 @@ func (m *model) checkHist(h formList, what string) *harness.Violation {
 		return viol("history-lost-recent", "%s holds %d forms but the %d most recent (limit %d) must be kept: %s vs %s",
 			what, len(h), len(m.must), m.limit, show(h), show(m.must))
 	}
-	for i := 1; i < len(h); i++ {
-		if formsEqual(h[i-1], h[i]) {
-			return viol("history-duplicate", "%s holds the same form twice in a row: %s", what, show(h))
-		}
-	}
+	// "none duplicated" is implied: the model drops an entered form that equals
+	// the most recent one, so a duplicate the implementation keeps makes h
+	// differ from every suffix of m.may. (A separate adjacent-equal check was
+	// a false alarm: a ranged clear can legitimately make equal forms adjacent.)
 	if m.lastAdd && m.limit > 0 && len(h) > m.limit+m.limit/10 {
 		return viol("history-over-limit", "%s holds %d forms right after an add with limit %d", what, len(h), m.limit)
 	}
@@ -682,7 +682,7 @@ func (w *world) runClean(ops []Op, from int, m *model, snaps *[]snapshot, a *acc
 		switch op.K {
 		case "restart":
 			a.probes["clean_restarts"]++
-			a.hashes = append(a.hashes, hashOf("restart", show(after.hist), show(after.stash)))
+			a.run = a.run*1099511628211 ^ hashOf("restart", show(after.hist), show(after.stash))
 			if !listsEqual(before.hist, after.hist) {
 				return viol("history-restart-mismatch", "op %d: session held %s but the restart loaded %s", i, show(before.hist), show(after.hist))
 			}
@@ -718,26 +718,16 @@ func (w *world) runClean(ops []Op, from int, m *model, snaps *[]snapshot, a *acc
 						return viol("history-clear", "op %d: history holds %s after a full clear", i, show(after.hist))
 					}
 				} else {
-					// :start/:end are inclusive indices counted from the
-					// oldest form; an end past the last form means the last.
-					exp := rangeRemoved(before.hist, op.A, op.B)
-					if !listsEqual(after.hist, exp) {
-						return viol("history-ranged-clear", "op %d: (clear-history :start %d :end %d) on %s left %s, expected %s",
-							i, op.A, op.B, show(before.hist), show(after.hist), show(exp))
-					}
-					m.adopt(exp)
+					// The index semantics of a ranged clear are not
+					// documented (see known finding C20-ranged-clear), so
+					// the model adopts what the session shows and only
+					// restart fidelity is judged from here on.
+					m.adopt(after.hist)
 				}
 			}
 		case "sclear":
-			if m != nil {
-				exp := rangeRemoved(before.stash, op.A, op.B)
-				if op.A == 0 && op.B == -1 {
-					exp = nil
-				}
-				if !listsEqual(after.stash, exp) {
-					return viol("stash-clear", "op %d: (clear-stash :start %d :end %d) on %s left %s, expected %s",
-						i, op.A, op.B, show(before.stash), show(after.stash), show(exp))
-				}
+			if m != nil && op.A == 0 && op.B == -1 && len(after.stash) != 0 {
+				return viol("stash-clear", "op %d: stash holds %s after a full clear", i, show(after.stash))
 			}
 		case "limit":
 			if m != nil {
@@ -798,6 +788,7 @@ func (e *engine) Execute(raw json.RawMessage) (vd harness.Verdict) {
 		}
 	}
 	w.destroy()
+	a.hashes = append(a.hashes, a.run)
 	if v != nil {
 		pinned := c
 		pinned.NoFaults = true
@@ -870,7 +861,8 @@ func (e *engine) crashRun(ops []Op, i, k int, after bool, snaps []snapshot, a *a
 	}
 	got := w.snap()
 	A, B := snaps[i], snaps[i+1]
-	a.hashes = append(a.hashes, hashOf("crash", ops[i].K, fmt.Sprint(k, after), show(got.hist), show(got.stash)))
+	a.run = hashOf("crash", ops[i].K, fmt.Sprint(k, after), show(got.hist), show(got.stash))
+	defer func() { a.hashes = append(a.hashes, a.run) }()
 	okHist := listsEqual(got.hist, A.hist) || listsEqual(got.hist, B.hist) || isPrefix(got.hist, B.hist) || isSuffix(got.hist, A.hist)
 	if !okHist {
 		return viol("crash-history-inconsistent",
@@ -1050,5 +1042,11 @@ func caseHas(c Case, trig string) bool {
 func (e *engine) Matches(raw json.RawMessage, v *harness.Violation, f harness.Finding) bool {
 	var c Case
 	_ = json.Unmarshal(raw, &c)
-	return v.Class == f.Class && (f.Trigger == "" || caseHas(c, f.Trigger))
+	classOK := false
+	for _, cl := range strings.Split(f.Class, "|") {
+		if cl == v.Class {
+			classOK = true
+		}
+	}
+	return classOK && (f.Trigger == "" || caseHas(c, f.Trigger))
 }
